@@ -118,6 +118,9 @@ def check_obstacle_object(ob, obj, ctx, tag=""):
             d = gg.same_geo(got, exp, tol)
             if d:
                 raise Violation(tag + "occupancy-geometry-" + ob["role"], "t=%d: %s" % (t, d))
+            d = gg.vertices_agree(occ.shape, tol)
+            if d:
+                raise Violation(tag + "occupancy-vertices-" + ob["role"], "t=%d: %s" % (t, d))
             ot = occ.time_step
             if isinstance(ot, Interval):
                 if not (ot.start <= t <= ot.end):
@@ -165,13 +168,25 @@ def rigid_geo(g, t, a):
     return {"k": "group", "m": [rigid_geo(m, t, a) for m in g["m"]]}
 
 
+def _off_centre(sh):
+    if sh["k"] == "group":
+        return any(_off_centre(m) for m in sh["m"])
+    if sh["k"] == "poly":
+        return max(abs(x) for x in geom.polygon_centroid(sh["v"])) > 1e-9
+    return sh.get("c") is not None and any(abs(x) > 0 for x in sh["c"])
+
+
 def check_obstacle(r, ctx):
     ob = r
     if has_rest_pm(ob):
         ctx.discard("point-mass state at rest")
     obj = gs.build_obstacle(ob)
     nt = check_obstacle_object(ob, obj, ctx)
-    if ob.get("_motion"):
+    off_centre = ob.get("shape") is not None and ob["role"] in ("static", "dynamic") and _off_centre(ob["shape"])
+    if off_centre:
+        ctx.label("shape-with-own-centre-offset")
+    if ob.get("_motion") and not off_centre:   # (an own centre offset is not rotated about the origin by the library:
+        # the occupancy is re-derived from the moved state, so the rigid image is not the reference there)
         # metamorphic: the queries above have filled every cache; after a rigid motion of the obstacle each occupancy
         # must be the rigid image of the occupancy before (same horizon)
         t, a = ob["_motion"]
@@ -249,7 +264,10 @@ def s_obstacle(tier):
     from crverif.gen.values import translation
     motion = st.one_of(st.none(), st.none(), st.tuples(translation(100), angle()).map(list))
     update = st.one_of(st.none(), st.integers(0, 12).flatmap(lambda t: gg.exact_state("InitialState", t)))
-    return st.tuples(st.one_of(gs.obstacle_recipe(7), gs.obstacle_recipe(7, role="dynamic"), custom_ob), motion,
+    # shapes with an own centre offset: placed as rotate_translate_local documents (rotation about the shape's centre)
+    off = {"shape": gg.any_shape(centered=False), "roles": ["static", "dynamic", "dynamic"]}
+    return st.tuples(st.one_of(gs.obstacle_recipe(7), gs.obstacle_recipe(7, role="dynamic"), custom_ob,
+                               gs.obstacle_recipe(7, profile=off)), motion,
                      update).map(lambda t: dict(t[0], _motion=t[1], _update=t[2]))
 
 
